@@ -1,0 +1,13 @@
+//go:build verif
+
+package filters
+
+// VerifYield is instrumentation for the verification harness (build tag verif only): when set, consumeEvents
+// calls it after the topic channel has been looked up and before the event is sent on it.
+var VerifYield func(point string, topic string)
+
+func verifYield(point, topic string) {
+	if f := VerifYield; f != nil {
+		f(point, topic)
+	}
+}
